@@ -160,6 +160,14 @@ func (e extremeVals) Leaf(n *dremel.GNode) pqfile.Val {
 		if r.Intn(5) == 0 {
 			return pqfile.Val{S: LongString(r.Intn(300), r.Int())}
 		}
+		if r.Intn(12) == 0 {
+			// lengths at the usual buffer / length-field boundaries
+			ls := []int{63, 64, 65, 127, 128, 129, 255, 256, 257, 1023, 1024, 4095, 4096, 4097}
+			if e.longStr {
+				ls = append(ls, 32767, 32768, 32769, 65535, 65536, 65537)
+			}
+			return pqfile.Val{S: LongString(ls[r.Intn(len(ls))], r.Int())}
+		}
 		return pqfile.Val{S: extStr[r.Intn(len(extStr))]}
 	}
 	panic("extremeVals")
